@@ -8,6 +8,7 @@ import (
 	"fmt"
 	"hash/fnv"
 	"os"
+	"runtime"
 	"strings"
 	"time"
 
@@ -356,7 +357,7 @@ func Explore(sc *Scenario, deadline time.Time) (result Stats) {
 			ex.st.BoundC = -1
 			ex.st.Exhaustive = true
 			ex.st.Capped = ""
-		} else if ex.st.Capped == "deadline" && sc.C >= 0 {
+		} else if strings.HasPrefix(ex.st.Capped, "deadline") && sc.C >= 0 {
 			// DPOR ran out of time: the bounded search result stands
 			ex.st.Capped = "dpor: deadline"
 			ex.st.Exhaustive = bounded
@@ -424,6 +425,10 @@ func (ex *Explorer) search(c, f int) bool {
 		first = false
 		if ex.st.Executions&63 == 0 && !ex.Deadline.IsZero() && time.Now().After(ex.Deadline) {
 			ex.st.Capped = "deadline"
+			return false
+		}
+		if ex.st.Executions&4095 == 4095 && heapTooLarge() {
+			ex.st.Capped = "deadline (memory limit of the worker reached first)"
 			return false
 		}
 		if ex.sc.MaxExec > 0 && ex.st.Executions >= ex.sc.MaxExec {
@@ -575,4 +580,12 @@ func Replay(sc *Scenario, choices []int) (vs.Result, []vs.Failure, string) {
 	ex := &Explorer{sc: sc}
 	ch, res := ex.exec(choices, 1<<20, 1<<20, true, true)
 	return res, ex.verdict(&res), ch.err
+}
+
+// heapTooLarge: the state cache of a long search has outgrown what sixteen parallel workers can share; the
+// search stops like at a deadline (not exhaustive), it is never killed by the system.
+func heapTooLarge() bool {
+	var m runtime.MemStats
+	runtime.ReadMemStats(&m)
+	return m.HeapAlloc > 3<<30
 }
